@@ -123,8 +123,10 @@ def record_pivots(A, n, elt):
     if fb: P["zero_subcolumn_row0_fallback"] += 1
     if not nonsingular(Af, n): P["singular_systems"] += 1
 
+STATS = {}
+
 def extra_coverage():
-    return {"pivot_distribution": PIVOT_STATS}
+    return {"pivot_distribution": PIVOT_STATS, "float_solver_agreement": dict(STATS)}
 
 # ---- recorded finding `cplx-sqmod-range` (findings/C01-complex-extreme-scale.md): Complex<f64> modulus and division square
 # the components without scaling.  The key is decided from the INPUT (entries and the exact pivots they lead to), never from
@@ -292,4 +294,16 @@ def oracle(case, items):
             bound = 1e-11 * (norm_inf_mat(A, n, n) * norm_inf_vec(sol) + norm_inf_vec(b))
             if r > bound: return "%s: backward error %g exceeds 1e-11*(|A||x|+|b|) = %g" % (name, r, bound)
     if elt == 'rat' and x != y: return "the two solvers disagree"
+    if elt != 'rat' and n > 0:
+        # both answers solve nearby systems (backward errors above), so they differ by at most cond(A) times those:
+        # ||x - y|| <= cond_inf(A) * 4e-11 * max(||x||, ||y||) (+ the |b| share, absorbed in the factor 4)
+        import numpy as np
+        M = np.array([complex(v) for v in A]).reshape(n, n)
+        kap = float(np.linalg.cond(M, np.inf))
+        d = max(abs(x[i] - y[i]) for i in range(n))
+        lim = 4e-11 * kap * max(norm_inf_vec(x), norm_inf_vec(y), norm_inf_vec(b) / max(norm_inf_mat(A, n, n), 1e-300))
+        STATS["compared"] = STATS.get("compared", 0) + 1
+        if d > 0: STATS["differ_bitwise"] = STATS.get("differ_bitwise", 0) + 1
+        STATS["max_disagreement_over_limit"] = max(STATS.get("max_disagreement_over_limit", 0.0), d / lim if lim > 0 else 0.0)
+        if d > lim: return "solve_basic and solve_lu disagree by %g > 4e-11*cond(A)*|x| = %g (cond %g)" % (d, lim, kap)
     return None
